@@ -25,3 +25,4 @@ run H5_request_hashes_special_re_order C01 C02 C03 C05 C12 C20
 run H6_get_tokens_tautology_reorder C01 C05 C14
 run H7_check_parameterised_let_order C01 C04 C07 C13
 run H8_optimizer_select_reordered C05
+run H9_tokenizer_push_condition_reordered C01 C02
